@@ -1956,15 +1956,15 @@ coap_retransmit(coap_context_t *context, coap_queue_t *node) {
       node->session->con_active--;
     bytes_written = coap_send_pdu(node->session, node->pdu, node);
 
-    if (node->is_mcast) {
-      coap_session_connected(node->session);
-      coap_delete_node_lkd(node);
-      return COAP_INVALID_MID;
-    }
     if (bytes_written == COAP_PDU_DELAYED) {
       /* PDU was not retransmitted immediately because a new handshake is
          in progress. node was moved to the send queue of the session. */
       return node->id;
+    }
+    if (node->is_mcast) {
+      coap_session_connected(node->session);
+      coap_delete_node_lkd(node);
+      return COAP_INVALID_MID;
     }
 
     if (bytes_written < 0)
